@@ -4,6 +4,7 @@
 package main
 
 import (
+	"bytes"
 	"github.com/bokysan/socketace/v2/internal/util/enc"
 )
 
@@ -33,6 +34,35 @@ func init() {
 		out := append([]Tok{TB(y)}, decObs(e, append([]byte{}, y...))...)
 		// the advertised expansion ratio, in parts per million (rounded)
 		return append(out, TW("ratio"), TI(int64(e.Ratio()*1e6+0.5)))
+	})
+	// encseq <code> <bytes>*  -> keep <0/1>*   every input is encoded on the same codec instance and the RESULTS ARE KEPT (not copied);
+	//   afterwards each kept text must still decode to its own input, and each kept decoding must still equal its input
+	register("encseq", func(a []Tok) []Tok {
+		e := encByCode(a[0].I)
+		var ins, texts, backs [][]byte
+		for _, t := range a[1:] {
+			in := append([]byte{}, t.B...)
+			ins = append(ins, in)
+			texts = append(texts, e.Encode(in))
+		}
+		for _, y := range texts {
+			d, err := e.Decode(append([]byte{}, y...))
+			if err != nil {
+				d = nil
+			}
+			backs = append(backs, d)
+		}
+		out := []Tok{TW("keep")}
+		for i := range ins {
+			ok := bytes.Equal(backs[i], ins[i]) || (len(backs[i]) == 0 && len(ins[i]) == 0)
+			if ok {
+				// and what Decode handed out earlier was not overwritten by later calls either
+				d2, err := e.Decode(append([]byte{}, texts[i]...))
+				ok = err == nil && (bytes.Equal(d2, ins[i]) || (len(d2) == 0 && len(ins[i]) == 0))
+			}
+			out = append(out, TBool(ok))
+		}
+		return out
 	})
 	// dec <code> <bytes>  ->  ok <decoded> | err
 	register("dec", func(a []Tok) []Tok {
